@@ -25,6 +25,8 @@ import (
 	"crypto/sha256"
 	"encoding/hex"
 	"fmt"
+	"runtime"
+	"runtime/debug"
 	"sort"
 	"strings"
 	"sync"
@@ -65,20 +67,18 @@ func baseSpec() wk.Spec {
 	}
 }
 
-var universe = []b6.FeatureID{pid(0), pid(1), pid(2), pid(3), pid(9), wid(0), wid(5), aid(0), rid(0), rid(5), pid(77)}
+// p2 is left out: it is in the same position as p1 in every op of the alphabet.
+var universe = []b6.FeatureID{pid(0), pid(1), pid(3), pid(9), wid(0), wid(5), aid(0), rid(0), pid(77)}
 
 var queries = []wk.RQ{
 	{Op: "all"},
 	{Op: "tagged", Key: "#a", Val: "cafe"},
 	{Op: "tagged", Key: "#a", Val: "bar"},
-	{Op: "tagged", Key: "#a", Val: "road"},
 	{Op: "keyed", Key: "#a"},
 	{Op: "keyed", Key: "@f"},
 	{Op: "tagged", Key: "#building", Val: "yes"},
 	{Op: "keyed", Key: "#route"},
 	{Op: "typed", Type: b6.FeatureTypePoint, Sub: []wk.RQ{{Op: "keyed", Key: "#a"}}},
-	{Op: "typed", Type: b6.FeatureTypePath, Sub: []wk.RQ{{Op: "all"}}},
-	{Op: "and", Sub: []wk.RQ{{Op: "keyed", Key: "#a"}, {Op: "keyed", Key: "@f"}}},
 	{Op: "or", Sub: []wk.RQ{{Op: "tagged", Key: "#a", Val: "bar"}, {Op: "keyed", Key: "@f"}}},
 }
 
@@ -309,16 +309,25 @@ func hash(b []byte) string {
 	return hex.EncodeToString(h[:8])
 }
 
-// sectionKind: section name + the feature type it concerns ("refs:point", "find", ...).
+// sectionKind names what kind of answer differs: the query family (lookups by
+// ID; referrer queries = refs, refs-<type>, rels, colls, areas; find; each;
+// trav; tokens) and, for per-ID sections, the type of the feature asked about.
 func sectionKind(diffLine string) string {
 	sec := wk.SectionClass(diffLine)
 	rest := diffLine[len(sec):]
+	fam := sec
+	switch {
+	case strings.HasPrefix(sec, "refs") || sec == "rels" || sec == "colls" || sec == "areas":
+		fam = "referrers"
+	case sec == "has" || sec == "feat" || sec == "loc":
+		fam = "lookup-" + sec
+	}
 	for _, t := range []string{"point", "path", "area", "relation", "collection"} {
 		if strings.HasPrefix(rest, ":/"+t+"/") || strings.HasPrefix(rest, ":"+t+"/") {
-			return sec + ":" + t
+			return fam + "-of-" + t
 		}
 	}
-	return sec
+	return fam
 }
 
 func kinds(diffs []string) []string {
@@ -382,42 +391,52 @@ func compareWithModel(w b6.World, obs []byte, m *model, kind worldKind) *verdict
 
 // ---- histories ----------------------------------------------------------------------
 
+// part = one bound of the space: an alphabet, a post length and the allowed
+// positions of the second snapshot.
+type part struct {
+	name    string
+	ops     map[worldKind][]op
+	depth   int
+	snapAts []int // -1: no second snapshot; j: second Snapshot before post op j
+}
+
 type caseSpec struct {
+	part   *part
 	kind   worldKind
 	pre    []int
-	snapAt int // -1: no second snapshot; j: second Snapshot before post op j
+	snapAt int
 	first  int // first post op
 }
 
 type space struct {
 	cases    []caseSpec
-	ops      map[worldKind][]op
-	depth    int
 	baseOnce sync.Once
 	base     b6.World
 	baseRef  *model
 	baseObs  []byte
 }
 
-func buildCases(ops map[worldKind][]op, depth int) []caseSpec {
+func buildCases(parts []*part) []caseSpec {
 	var cases []caseSpec
-	for preLen := 0; preLen <= 2; preLen++ {
-		for _, k := range []worldKind{kindOverlay, kindTags} {
-			n := len(ops[k])
-			total := 1
-			for i := 0; i < preLen; i++ {
-				total *= n
-			}
-			for x := 0; x < total; x++ {
-				pre := make([]int, preLen)
-				y := x
-				for i := preLen - 1; i >= 0; i-- {
-					pre[i] = y % n
-					y /= n
+	for _, pt := range parts {
+		for preLen := 0; preLen <= 2; preLen++ {
+			for _, k := range []worldKind{kindOverlay, kindTags} {
+				n := len(pt.ops[k])
+				total := 1
+				for i := 0; i < preLen; i++ {
+					total *= n
 				}
-				for s := -1; s < depth; s++ {
-					for f := 0; f < n; f++ {
-						cases = append(cases, caseSpec{kind: k, pre: pre, snapAt: s, first: f})
+				for x := 0; x < total; x++ {
+					pre := make([]int, preLen)
+					y := x
+					for i := preLen - 1; i >= 0; i-- {
+						pre[i] = y % n
+						y /= n
+					}
+					for _, s := range pt.snapAts {
+						for f := 0; f < n; f++ {
+							cases = append(cases, caseSpec{part: pt, kind: k, pre: pre, snapAt: s, first: f})
+						}
 					}
 				}
 			}
@@ -522,13 +541,27 @@ func shortKind(k worldKind) string {
 
 // twin replays the edits of the history without any Snapshot() on a fresh live
 // world over the same base: tells whether a live divergence involves snapshots.
-func (x *run) twinObservation() []byte {
+func (x *run) twinObservation() string {
+	var key strings.Builder
+	key.WriteString(shortKind(x.kind))
+	for _, o := range x.applied {
+		key.WriteString("|" + o.name)
+	}
+	if h, ok := twins[key.String()]; ok {
+		return h
+	}
 	w := newLive(x.kind, x.sp.base)
 	for _, o := range x.applied {
 		kit.Catch(func() { applyReal(w, o) })
 	}
-	return observe(w)
+	h := hash(observe(w))
+	if len(twins) < 300000 {
+		twins[key.String()] = h
+	}
+	return h
 }
+
+var twins = map[string]string{}
 
 // check = one check point: every snapshot still answers as at creation; live equals the model.
 func (x *run) check() {
@@ -546,7 +579,7 @@ func (x *run) check() {
 	obs := observe(x.w)
 	if v := compareWithModel(x.w, obs, x.m, x.kind); len(v.kinds) > 0 {
 		where := "also-without-snapshots"
-		if len(x.snaps) > 0 && !bytesEqual(x.twinObservation(), obs) {
+		if len(x.snaps) > 0 && x.twinObservation() != hash(obs) {
 			where = "only-with-snapshots"
 		}
 		for _, k := range v.kinds {
@@ -567,7 +600,6 @@ func (x *run) check() {
 	}
 }
 
-func bytesEqual(a, b []byte) bool { return string(a) == string(b) }
 
 func (sp *space) ensureBase() {
 	sp.baseOnce.Do(func() {
@@ -594,9 +626,9 @@ func (sp *space) Run(i int64) kit.Result {
 	var r kit.Result
 	sp.ensureBase()
 	c := sp.cases[i]
-	ops := sp.ops[c.kind]
+	ops := c.part.ops[c.kind]
 	n := len(ops)
-	d := sp.depth
+	d := c.part.depth
 	// suffixes: post ops 1..d-1
 	total := 1
 	for j := 1; j < d; j++ {
@@ -640,7 +672,7 @@ func (sp *space) Run(i int64) kit.Result {
 	}
 	// the read-only base must not have been changed by anything above
 	if diffs := transcriptDiff(sp.baseObs, observe(sp.base)); len(diffs) > 0 {
-		r.Violate("base-changed:"+shortKind(c.kind), "the read-only base world answers differently after the histories of case %v\n%s", c, strings.Join(diffs, "\n"))
+		r.Violate("base-changed:"+shortKind(c.kind), "the read-only base world answers differently after the histories of case %d (%s)\n%s", i, c.part.name, strings.Join(diffs, "\n"))
 	}
 	r.Nontrivial = r.Distinct > 0
 	if i%211 == 0 {
@@ -648,7 +680,7 @@ func (sp *space) Run(i int64) kit.Result {
 		for _, pi := range c.pre {
 			pre = append(pre, ops[pi].name)
 		}
-		r.Sample = map[string]interface{}{"world": c.kind.String(), "pre": pre, "second_snapshot_before_post_op": c.snapAt, "first_post_op": ops[c.first].name, "post_suffixes_enumerated": total}
+		r.Sample = map[string]interface{}{"part": c.part.name, "world": c.kind.String(), "pre": pre, "second_snapshot_before_post_op": c.snapAt, "first_post_op": ops[c.first].name, "post_suffixes_enumerated": total}
 	}
 	if r.Evals == 0 {
 		r.Evals = 1
@@ -657,6 +689,9 @@ func (sp *space) Run(i int64) kit.Result {
 }
 
 func main() {
+	// the cases allocate many short strings and keep almost nothing: collect rarely
+	debug.SetGCPercent(400)
+	runtime.MemProfileRate = 0
 	kit.Main(&kit.Check{
 		ID:    "C14",
 		Level: "model_checking",
@@ -674,15 +709,23 @@ func main() {
 		ThoroughDeadline: 40 * 60e9,
 		CaseTimeout:      900e9,
 		Build: func(tier string) (kit.Space, string) {
-			full := tier == "thorough"
-			depth := 2
-			if full {
-				depth = 3
+			small := map[worldKind][]op{kindOverlay: overlayOps(false), kindTags: tagsOps(false)}
+			full := map[worldKind][]op{kindOverlay: overlayOps(true), kindTags: tagsOps(true)}
+			var parts []*part
+			if tier == "thorough" {
+				parts = []*part{
+					{name: "full alphabet, post=2", ops: full, depth: 2, snapAts: []int{-1, 0, 1}},
+					{name: "core alphabet, post=3", ops: small, depth: 3, snapAts: []int{-1, 1, 2}},
+				}
+			} else {
+				parts = []*part{{name: "core alphabet, post=2", ops: small, depth: 2, snapAts: []int{-1, 1}}}
 			}
-			ops := map[worldKind][]op{kindOverlay: overlayOps(full), kindTags: tagsOps(full)}
-			sp := &space{cases: buildCases(ops, depth), ops: ops, depth: depth}
-			no, nt := len(ops[kindOverlay]), len(ops[kindTags])
-			return sp, fmt.Sprintf("MutableOverlayWorld: %d ops, MutableTagsOverlayWorld: %d ops; pre <= 2 ops, post = %d ops (all shorter posts as prefixes), second snapshot at any of %d positions or absent; base = 4 points, closed path, area by path, relation", no, nt, depth, depth)
+			sp := &space{cases: buildCases(parts)}
+			var desc []string
+			for _, pt := range parts {
+				desc = append(desc, fmt.Sprintf("[%s: MutableOverlayWorld %d ops, MutableTagsOverlayWorld %d ops; pre <= 2 ops; post = %d ops (all shorter posts as prefixes); second snapshot absent or before post op %v]", pt.name, len(pt.ops[kindOverlay]), len(pt.ops[kindTags]), pt.depth, pt.snapAts[1:]))
+			}
+			return sp, strings.Join(desc, " + ") + "; base = 4 points, closed path, area by path, relation"
 		},
 	})
 }
